@@ -1,6 +1,6 @@
 (* C04 — speculation is bounded by the prediction window; lockstep never speculates.
    Statements only (same model and conventions as props/C02.v). *)
-From GGRS Require Import Base Consts Queue Sync P2P Session SessionProofs SessionProgress SessionSparse SessionSparse2.
+From GGRS Require Import Base Consts Queue QueueProofs Sync P2P Session SessionProofs SessionProgress SessionSparse SessionSparse2 SessionTimeline SessionLockstep.
 Open Scope Z_scope.
 
 (* Every LoadGameState of every call names a frame at most max_prediction frames behind the frame
@@ -124,3 +124,31 @@ Example C04_demo_sparse :
                    [SLocal 0 1; SAdvance; SLocal 0 1; SAdvance; SLocal 0 1; SAdvance; SLocal 0 1; SAdvance] = Ok (p, outs) /\
                  s_current (ps_sync p) = 2 /\ s_last_saved (ps_sync p) = 0.
 Proof. eexists. eexists. split; [|split]; vm_compute; reflexivity. Qed.
+
+(* LOCKSTEP, UNCONDITIONALLY (max_prediction = 0, no spectators; coq/SessionLockstep.v).  Inside the space - nobody
+   disconnects, remote inputs arrive in frame order while the ring has room, local players share the input
+   delay d - for EVERY operation sequence: no modelled assert fires (the run is Err only when it leaves the
+   space), the request lists execute, every request of every call is an AdvanceFrame whose inputs are ALL
+   Confirmed (no Save, no Load, no predicted or Disconnected input: lockstep never speculates), and every
+   frame the game has simulated was simulated - once - with exactly the inputs held for it. *)
+Theorem C04_lockstep_never_speculates :
+  forall (predict : Z -> Z), (forall x, predict (predict x) = predict x) -> predict 0 = 0 ->
+  forall (ops : list sop) (n d : Z) (kinds : list pkind) (eps : list (list Z)),
+  0 <= d -> d + 4 <= INPUT_QUEUE_LENGTH -> 0 < n -> Z.of_nat (length kinds) = n -> players_only kinds ->
+  let p0 := session_start n 0 false d kinds eps 0 in
+  srun_in predict p0 ops = Err \/
+  exists p outs g gs, srun_in predict p0 ops = Ok (p, outs) /\ srun predict p0 ops = Ok (p, outs) /\
+    exec_outs 0 (game0 0) outs = Some g /\ gframe g = s_current (ps_sync p) /\ QSg false 0 d p gs /\
+    Forall (fun o : pout * apires => all_confirmed (o_requests (fst o))) outs /\
+    (forall h hist low f, nth_error gs h = Some (hist, low) -> 0 <= f < s_current (ps_sync p) ->
+       f < hlen hist /\ gvalL (g_hist g) f h = hval hist f).
+Proof. exact lockstep_from_start. Qed.
+
+(* non-vacuity: a lockstep run inside the space; the session advances only once the remote input of the
+   frame has arrived, and hands it out as Confirmed *)
+Example C04_lockstep_demo :
+  exists p outs, srun_in (fun x => x) (session_start 2 0 false 0 [KLocal; KRemote 0] [[1]] 0)
+      [SLocal 0 1; SAdvance; SRemote 1 0 7; SLocal 0 1; SAdvance; SLocal 0 2; SAdvance] = Ok (p, outs) /\
+    map (fun o => o_requests (fst o)) outs =
+      [[]; []; []; []; [RAdvance [(1, Confirmed); (7, Confirmed)]]; []; []] /\ s_current (ps_sync p) = 1.
+Proof. eexists. eexists. split; [vm_compute; reflexivity|]. split; vm_compute; reflexivity. Qed.
